@@ -65,6 +65,14 @@ func (g *G) SwitchMessageOf(kind string) SwitchMsg {
 		libOK := true
 		h, _ := common.NewHello(4)
 		h.Header.Xid = uint32(x)
+		if !g.Avoid["hello_higher_version"] && g.Chance("hello_higher_version", 1, 3) {
+			// a switch that also speaks 1.4 / 1.5 puts its highest version into the hello header and lists
+			// 1.3 in the bitmap (OF 1.3.5 6.3.1); the header version of a hello is not a reason to refuse it
+			ver := uint64(g.Int("hello_version", 5, 6))
+			n.With(spec.U("version", ver))
+			h.Header.Version = uint8(ver)
+			g.Label("hello_header_version_above_1.3")
+		}
 		h.Elements = h.Elements[:0]
 		for i := 0; i < k; i++ {
 			if g.Chance(fmt.Sprintf("unknown%d", i), 1, 4) {
